@@ -118,7 +118,9 @@ func (f *Formatter) Format(vcl *ast.VCL) io.Reader {
 	buf.WriteString("\n")
 
 	// Never start the output with empty lines: formatting the output again would drop them
-	return bytes.NewReader(restoreLineFeeds(bytes.TrimLeft(buf.Bytes(), "\n")))
+	// Like in block statements, successive empty lines in declarations are squeezed to one
+	out := trimMultipleLineFeeds(strings.TrimLeft(buf.String(), "\n"))
+	return bytes.NewReader(restoreLineFeeds([]byte(out)))
 }
 
 // Calculate and crate ident strings from config (shorthand, without passing config)
